@@ -13,3 +13,16 @@ axiom("psum-frame", {"a": "arr[float]", "b": "arr[float]", "n": "int"},
       "implies(n >= 0 and forall(0, n, lambda j: a[j] == b[j]), psum(a, n) == psum(b, n))")
 PSUM = ["psum-base", "psum-step", "psum-nonneg", "psum-frame"]
 NATIVE = {"psum": lambda a, j: sum(a[:int(j)])}
+
+# real-analysis facts about x ** y for x > 0 (pow is uninterpreted in model R; these are the only facts used).  Trusted.
+axiom("pow-positive", {"x": "float", "y": "float"}, "implies(x > 0, pow(x, y) > 0)", trusted=True)
+axiom("pow-one", {"x": "float"}, "implies(x > 0, pow(x, 1) == x)", trusted=True)
+axiom("pow-inverse", {"x": "float", "y": "float"}, "implies(x > 0 and y != 0, pow(pow(x, y), 1 / y) == x)", trusted=True)
+axiom("pow-monotone-base", {"x": "float", "z": "float", "y": "float"},
+      "implies(0 < x and x < z and y > 0, pow(x, y) < pow(z, y))", trusted=True)
+POW = ["pow-positive", "pow-one", "pow-inverse", "pow-monotone-base"]
+import math as _m
+NATIVE.update({"math_acos": _m.acos, "math_sin": _m.sin, "math_cos": _m.cos, "math_exp": _m.exp})
+axiom("pow-three-halves", {"x": "float"}, "implies(x > 0, pow(x, 3 / 2) == x * sqrt(x))", trusted=True)
+axiom("sqrt-def", {"x": "float"}, "implies(x >= 0, sqrt(x) >= 0 and sqrt(x) * sqrt(x) == x)", trusted=True)
+POW = POW + ["pow-three-halves", "sqrt-def"]
